@@ -25,7 +25,8 @@ DRIVER_MODULES = ["PsutilModel.Model.C17Gen", "PsutilModel.Spec.C17", "PsutilMod
 NEEDS_EXT = True
 TRUSTED = [
     "C17 is PARTIAL: the theorems are about a Lean model of the decoders (struct utmp layout, C-string reads, the Python filters) and of the bounds arithmetic (PSUTIL_STRNCPY, MAC formatting, affinity loop, CPU_SET, pid range, ioprio packing); memory safety of the COMPILED code is supported by differential testing of the real extension in sub-processes, in the thorough tier under clang AddressSanitizer + UBSan — testing, not proof",
-    "regex facts from C (users.c decode calls, PSUTIL_STRNCPY, guards in proc.c, flag table) and system headers (<net/if.h>, <netdb.h> NI_MAXHOST, <bits/cpu-set.h>): a shape the regex does not recognise is skipped (baseline kept) and then only the correspondence ties it",
+    "regex facts from C (users.c decode calls, PSUTIL_STRNCPY, guards in proc.c, flag table) and system headers (<net/if.h>, <netdb.h> NI_MAXHOST, <bits/cpu-set.h>): a shape the regex does not recognise is skipped (baseline kept) and then only the correspondence ties it — EXCEPT the users.c decode shape (round 2: total extractor, any other shape changes the fact and ushape_good fails)",
+    "round 2: RootFsDeviceFinder, net_if_stats() and net_if_addrs() are modelled on ASCII text ('\\r'-free files, str.isdigit()+int() on ASCII digits); the kernel-consistent tree of C17_rootfs_* is a definition (Spec.Consistent: one device list rendered through the kernel's three printf formats, unique device numbers); os.stat('/'), glob order and os.path.exists are inputs of the model",
     "glibc (getutent record chunking, getmntent escape decoding and 4095-byte line cut, CPU_SET bounds check, strncpy, sprintf) and CPython's PyArg_ParseTuple format units are modelled/independently re-implemented in the harness and validated by the correspondence, not verified",
     "extension round: libc's getnameinfo(NI_NUMERICHOST) text, fgets/getmntent line handling and va_arg widths behind Py_BuildValue are modelled explicitly (oracle / named definitions) and validated by the shim-driven correspondence; the shim (harness/props/c17_util.py SHIM2_C) stands in for the kernel's getifaddrs/ioctl/sysinfo answers",
     "PYTHONUTF8=1: bytes <-> str through surrogateescape is a bijection (modelled as identity on bytes); mnt_type / mnt_opts go through strict UTF-8 ('s' format): invalid UTF-8 there is a UnicodeDecodeError (an exception, allowed by the property), checked but outside the Lean model",
@@ -36,7 +37,7 @@ ASSUMPTIONS = [
     "mounts files without NUL bytes for the exact comparison (a NUL makes glibc's getmntent drop the rest of the line and the next line); NUL/garbage files are still fed under the no-crash oracle",
 ]
 MANIFEST = {
-    "level_text": "PARTIAL. Machine-checked Lean 4 theorems over a byte-level MODEL of the extension's decoders and bounds logic: C17_users_fields_cut (users() over every utmp file = the USER_PROCESS records with user/terminal/host cut at the first NUL or at the field width, ':0'/':0.0' as localhost, start time, PID) and C17_users_read_in_record (every string read stays inside the 384-byte record) for the size-bounded decode, both DISPROVED for the unbounded PyUnicode_DecodeFSDefault decode by the full-width record (lead L14: 341-char name; the code as found, fixed in /repo by a15d2eb); C17_filesystems_parse + C17_partitions_filter (+ _kept_iff, _all); C17_strncpy_terminated; C17_mac_fits; C17_affinity_no_overflow (loop never multiplies past INT_MAX and terminates, any kernel answers); C17_cpuset_in_bounds / C17_affinity_set_in_bounds (CPU_SET on any C long); C17_pid_range; C17_ioprio_no_overflow, C17_ioprio_entry_defined, C17_ioprio_reach (no ioclass reaches an undefined shift once a range check exists; counterexample ionice(2**18, 0) without it, lead L15, fixed in /repo by f6216f8); C17_iff_table / C17_iff_flag_names / C17_iff_documented. Which variant the source uses is re-extracted on every run (regex over users.c, proc.c, _psutil_common.h, _psutil_posix.c; ast over _pslinux.py) and feeds the proof obligations ucfg_good … icfg_safe. Memory safety of the COMPILED C is NOT proved: it is supported by a differential run of the real extension in sub-processes — crafted utmp files via utmpname(), crafted mounts/filesystems files, a sched_getaffinity EINVAL shim, exhaustive ioprio/pid edge grids and an argument fuzzer over every entry point — compared with the model's decoding, where a crash, hang or sanitizer report is a violation; the thorough tier repeats it on a clang -fsanitize=address,undefined build. That part is testing. EXTENSION ROUND (Model/C17Ext.lean, 22 more theorems): C17_ifaddrs_rows (net_if_addrs over every getifaddrs() list honouring libc's object contract = getifaddrs(3)'s reading: broadcast iff IFF_BROADCAST, ptp iff IFF_POINTOPOINT and not broadcast, NULL / unshowable addresses dropped) and C17_ifaddrs_reads_in_object; C17_ifr_name_bounded (the NIC name reaches ifr_name[IFNAMSIZ] cut to 15 bytes and terminated, for the four ifreq entry points) and C17_ifr_running; C17_mntent_line_whole (every mounts line of up to 4095 bytes reaches the field decoder whole when the getmntent buffer in effect is >= 4096; the 1024-byte getmntent_r buffer of seeded change C17-1 is the proved counterexample) and C17_mntent_tuple (the render->decode round trip of the fields is stated, C17_mntent_roundtrip_Full, but only tested); C17_sysinfo_tuple (every Py_BuildValue unit of linux_sysinfo matches the width of its struct sysinfo member: no truncation for any value); C17_getpriority_errno_independent (with errno cleared before getpriority(2) the result is the kernel's answer for EVERY errno value on entry; counterexample without the reset = seeded C18-1) plus the obligation that no other Linux entry point uses errno as a discriminator. These are tied to the real code by an LD_PRELOAD shim that scripts getifaddrs(), the SIOCGIF*/SIOCETHTOOL ioctls (logging the ifr_name bytes each call carried) and sysinfo(), by nice values set on a sacrificial child, and by a stale errno poisoned into the thread's errno before every fuzzed call.",
+    "level_text": "PARTIAL. Machine-checked Lean 4 theorems over a byte-level MODEL of the extension's decoders and bounds logic: C17_users_fields_cut (users() over every utmp file = the USER_PROCESS records with user/terminal/host cut at the first NUL or at the field width, ':0'/':0.0' as localhost, start time, PID) and C17_users_read_in_record (every string read stays inside the 384-byte record) for the size-bounded decode, both DISPROVED for the unbounded PyUnicode_DecodeFSDefault decode by the full-width record (lead L14: 341-char name; the code as found, fixed in /repo by a15d2eb); C17_filesystems_parse + C17_partitions_filter (+ _kept_iff, _all); C17_strncpy_terminated; C17_mac_fits; C17_affinity_no_overflow (loop never multiplies past INT_MAX and terminates, any kernel answers); C17_cpuset_in_bounds / C17_affinity_set_in_bounds (CPU_SET on any C long); C17_pid_range; C17_ioprio_no_overflow, C17_ioprio_entry_defined, C17_ioprio_reach (no ioclass reaches an undefined shift once a range check exists; counterexample ionice(2**18, 0) without it, lead L15, fixed in /repo by f6216f8); C17_iff_table / C17_iff_flag_names / C17_iff_documented. Which variant the source uses is re-extracted on every run (regex over users.c, proc.c, _psutil_common.h, _psutil_posix.c; ast over _pslinux.py) and feeds the proof obligations ucfg_good … icfg_safe. Memory safety of the COMPILED C is NOT proved: it is supported by a differential run of the real extension in sub-processes — crafted utmp files via utmpname(), crafted mounts/filesystems files, a sched_getaffinity EINVAL shim, exhaustive ioprio/pid edge grids and an argument fuzzer over every entry point — compared with the model's decoding, where a crash, hang or sanitizer report is a violation; the thorough tier repeats it on a clang -fsanitize=address,undefined build. That part is testing. EXTENSION ROUND (Model/C17Ext.lean, 22 more theorems): C17_ifaddrs_rows (net_if_addrs over every getifaddrs() list honouring libc's object contract = getifaddrs(3)'s reading: broadcast iff IFF_BROADCAST, ptp iff IFF_POINTOPOINT and not broadcast, NULL / unshowable addresses dropped) and C17_ifaddrs_reads_in_object; C17_ifr_name_bounded (the NIC name reaches ifr_name[IFNAMSIZ] cut to 15 bytes and terminated, for the four ifreq entry points) and C17_ifr_running; C17_mntent_line_whole (every mounts line of up to 4095 bytes reaches the field decoder whole when the getmntent buffer in effect is >= 4096; the 1024-byte getmntent_r buffer of seeded change C17-1 is the proved counterexample) and C17_mntent_tuple (the render->decode round trip of the fields, C17_mntent_roundtrip_Full, is PROVED in round 2); C17_sysinfo_tuple (every Py_BuildValue unit of linux_sysinfo matches the width of its struct sysinfo member: no truncation for any value); C17_getpriority_errno_independent (with errno cleared before getpriority(2) the result is the kernel's answer for EVERY errno value on entry; counterexample without the reset = seeded C18-1) plus the obligation that no other Linux entry point uses errno as a discriminator. These are tied to the real code by an LD_PRELOAD shim that scripts getifaddrs(), the SIOCGIF*/SIOCETHTOOL ioctls (logging the ifr_name bytes each call carried) and sysinfo(), by nice values set on a sacrificial child, and by a stale errno poisoned into the thread's errno before every fuzzed call. ROUND 2 (Model/C17Py.lean, 24 more theorems): C17_mntent_roundtrip (render -> getmntent decode is the identity for EVERY mount entry, the escaped characters space/tab/newline/backslash included) and C17_mac_text (the sprintf/ptr loop as transcribed yields xx:xx:...:xx, two lower-case hex digits per byte, 3n-1 characters, for every address of up to 255 bytes) are now proved instead of tested; the decode SHAPE of users.c is a total translator fact (the text of the expression behind each string slot, every call touching ut_user/ut_line/ut_host, char locals) with the obligation ushape_good, so that any decoding other than PyUnicode_DecodeFSDefaultAndSize(ut->F, strnlen(ut->F, sizeof(ut->F))) stops the build (seeded C17-2), and C17_users_fields_cut_shape is the users() theorem for exactly that shape; the Python-side wrappers are modelled and proved: C17_rootfs_strategies_agree / C17_rootfs_find (RootFsDeviceFinder: on every tree in which /proc/partitions, /sys/dev/block/M:m/uevent and /sys/class/block/*/dev show the same devices the three strategies give the same answer, and find() returns the root device's /dev path iff it exists), C17_netifstats_rows (net_if_stats() for every list of NICs and every success/errno combination of the three ioctls: ENODEV NICs left out, other errors raised, isup = IFF_RUNNING, documented duplex, 32-bit speed, mtu, comma-joined flag names; an undefined duplex byte gives KeyError - stated as the code's behaviour), C17_netifaddrs_mac_padding and C17_netifaddrs_grouping (psutil.net_if_addrs(): per NIC its rows, stable sort by family, AF_LINK text completed to 6 groups). Each is driven on the REAL code path: RootFsDeviceFinder over scripted /proc + /sys trees (glob order scripted), psutil.net_if_stats() over a scripted /proc/net/dev with per-NIC, per-ioctl scripted answers, psutil.net_if_addrs() over scripted getifaddrs() lists.",
     "level_note": "Trusted: Lean kernel + {propext, Classical.choice, Quot.sound}; regex/ast translator; glibc/CPython semantics re-implemented in the harness (getmntent decoding, PyArg format units); the struct utmp layout; sanitizer coverage is only as good as the inputs explored. net_if_addrs()/net_if_stats() vs /sys/class/net and socket.if_nameindex() on the live interfaces is a supporting check (the sandbox has 4 NICs). Extension round: getnameinfo's numeric text is an oracle of the model (independent rendering in the harness); socket struct sizes and C type widths are ABI tables in the translator; libc's getmntent line buffer (4096) is MEASURED by a probe at translation time; the getifaddrs shim replaces the kernel, so libc's allocation contract for the sockaddr objects (Spec.SockWF) is an assumption.",
     "technique": "Lean 4 proofs over byte-level decoder/bounds models + translator-fed proof obligations + sub-process differential testing of the compiled extension (ASan+UBSan in the thorough tier)",
     "design_ref": "DESIGN.md §5 C17",
